@@ -138,6 +138,108 @@ def clauses(case, d):
     return sorted(set(bad))
 
 
+def clauses_nested(case, d):
+    """programs whose doers also issue ops from their cease / exit actions: ops nest (a remove() closes a doer whose
+    close hook calls remove()/extend() on the same scheduler).  Frames: the ops a recur step announces, and on top the
+    ops a cease / exit event announces; every op that returned left a snapshot that belongs to the innermost open frame.
+    Membership reference: a remove() drops its targets when it STARTS (rmBeg), an extend() lists a doer when it is entered."""
+    bad = []
+    spec, par, pools, kids = S.spec_index(case)
+    ref = {sid: list(k) for sid, k in kids.items()}
+    tr = d["trace"]
+    live, nrec = set(), {}
+    frames = []          # [actor, remaining ops, window start, applied-remove info or None]
+    cops = {i: ([op for ops, o in sp[4] if o == "oncease" for op in ops], [op for ops, o in sp[4] if o == "onexit" for op in ops])
+            for i, sp in spec.items() if sp[0] == "leaf"}
+    for pos, e in enumerate(tr):
+        i, k, t = e[0], e[1], e[2]
+        if k == "enter":
+            live.add(i)
+            nrec[i] = 0
+        elif (k == "exit" and spec.get(i, ("leaf",))[0] == "leaf") or k == "exitEnd":
+            live.discard(i)
+        if k == "recur" and spec.get(i, ("x",))[0] == "leaf":
+            if any(f[1] for f in frames):
+                bad.append("op-did-not-return")
+            nrec[i] = nrec.get(i, 0) + 1
+            real = [st for st in spec[i][4] if st[1] not in S.CLOSE_OUTS]
+            n = nrec[i]
+            frames = [[i, list(real[n - 1][0]) if n <= len(real) else [], pos, None]]
+        elif k in ("cease", "exit") and i in cops:
+            ops = cops[i][0 if k == "cease" else 1]
+            if k in ("exit",) and frames and frames[0][0] == i and frames[0][1]:
+                # the actor ends with announced ops not performed: an op raised into it
+                bad.append("op-raised-into-the-doer:" + frames[0][1][0][0])
+                frames = []
+            if ops:
+                frames.append([i, list(ops), pos, None])
+        elif k == "abort" and frames and frames[0][0] == i and frames[0][1]:
+            bad.append("op-raised-into-the-doer:" + frames[0][1][0][0])
+            frames = []
+        elif k == "rmBeg":
+            fr = next((f for f in reversed(frames) if f[1]), None)
+            if fr is None or fr[1][0][0] != "remove" or par[fr[0]] != i:
+                bad.append("remove-call-nobody-announced")
+                continue
+            before = list(ref[i])
+            tg = []
+            for j in fr[1][0][1]:
+                if j in before and j not in tg:
+                    tg.append(j)
+            ref[i] = [x for x in before if x not in tg]
+            fr[3] = (tg, {j for j in tg if j in live}, pos)
+        elif k == "doers":
+            fr = next((f for f in reversed(frames) if f[1]), None)
+            if fr is None:
+                bad.append("snapshot-without-op")
+                continue
+            actor, op = fr[0], fr[1].pop(0)
+            sid = par[actor]
+            if sid != i:
+                bad.append("op-on-foreign-scheduler")
+            seg = tr[fr[2] + 1:pos]
+            if op[0] == "extend":
+                new = []
+                for kx in op[1]:
+                    if 0 <= kx < len(pools[sid]):
+                        j = pools[sid][kx]
+                        if j not in ref[sid] and j not in new:
+                            new.append(j)
+                ref[sid] = ref[sid] + new
+                ent = [x[0] for x in seg if x[1] == "enter" and par.get(x[0]) == sid]
+                if ent != new:
+                    bad.append("extend-did-not-enter-exactly-the-new-doers-in-order")
+            else:
+                if fr[3] is None:
+                    bad.append("remove-did-not-start")
+                else:
+                    tg, waslive, beg = fr[3]
+                    inner = tr[beg + 1:pos]
+                    if not (inner and inner[-1][1] == "rmEnd" and inner[-1][0] == sid):
+                        bad.append("remove-did-not-return-normally")
+                    busy = {f[0] for f in frames}      # doers that are running / in the middle of their own close right now
+                    for j in tg:
+                        if j == actor or j not in waslive or j in busy:
+                            continue
+                        evs = [x[1] for x in inner if x[0] == j and x[1] in ("cease", "exit")]
+                        if evs[:2] != ["cease", "exit"]:
+                            bad.append("removed-doer-not-ceased-and-exited-before-remove-returned")
+                fr[3] = None
+            if list(e[3]) != ref[sid]:
+                bad.append("doers-list-not-added-and-not-removed-in-insertion-order")
+                ref[sid] = list(e[3])
+            fr[2] = pos
+            while frames and len(frames) > 1 and not frames[-1][1]:
+                frames.pop()
+    if d["raised"].startswith("other:") or d["raised"] == "kbint":
+        bad.append("unexpected-exception-from-do:" + d["raised"].split(":")[-1])
+    if list(d["doers"]) != ref[0]:
+        bad.append("final-doers-list-differs")
+    if d["late"]:
+        bad.append("closed-only-by-garbage-collector")
+    return sorted(set(bad))
+
+
 def was_reextended(tr, j, n):
     """j was entered again (extend) before position n after its first enter"""
     return sum(1 for x in tr[:n] if x[0] == j and x[1] == "enter") > 1
@@ -151,7 +253,19 @@ class C06(S.SchedCheck):
                  "differential run against hio.base.doing; ordered-set reference oracle on the real trace")
     level_text = ('Lean theorems for every state of a scheduler in mid cycle: doers_list_exact (doers after any op sequence = fold of the ordered-set spec, every snapshot equal to the spec), extend_spec_meaning, doers_list_exact_raised (failing enter inside extend: exactly the doers entered before it are listed), extend_present_noop, extend_queues_right_of_marker + extend_enters_now + cycle_resumes_only_left_of_marker + extend_runs_next_cycle (new doers are entered at the current tyme, queued right of the marker, not resumed in this cycle), remove_closes_before_return + close_is_cease_exit + removed_never_recurs + remove_doers + cycle_skips_removed, self_remove_no_lifecycle_event + self_remove_keeps_running. That the new deed IS resumed in the next cycle: due_head_recurs, due_deed_recurs, extended_doer_recurs_next_cycle (any later cycle with now <= now2, unless the cycle raised or the deed was removed in it) and extended_doer_recurs_next_doist_cycle (at now + tock, under the LawfulTyme laws of HioModel/Sched/TimeDefs.lean and 0 <= tock; Float satisfying them is an assumption). F05/F06/F04 were repaired on fix/sched.')
     level_note = ('Trusted: as C01.  The ordered-set reference oracle replays the ops announced by each recur against the snapshots the real scheduler left.')
-    profiles = ("ops", "ops", "ops", "mixed", "lastop")
+    profiles = ("ops", "ops", "ops", "mixed", "lastop", "closeops")
+
+    def corpus(self):
+        y = ([], ("yield", 0.0))
+        # boss removes [worker, helper]; worker's exit hook removes its helper and itself; and a hook that re-adds
+        extra = [("run", 1.0, 0.0, 5.0, [], [("leaf", 1, "doify", "ok", [y, ([("remove", [2, 3])], ("yield", 0.0)), y, y]),
+                                             ("leaf", 2, "plain", "ok", [y] * 6 + [([("remove", [3, 2])], "onexit")]),
+                                             ("leaf", 3, "bound", "ok", [y] * 6)]),
+                 ("run", 1.0, 0.0, 5.0, [("leaf", 7, "doify", "ok", [y] * 3)],
+                  [("group", 9, 0.0, True, [("leaf", 1, "doify", "ok", [y, ([("remove", [3, 2])], ("yield", 0.0)), y, y]),
+                                            ("leaf", 2, "genrecur", "ok", [y] * 6 + [([("remove", [2])], "oncease"), ([("extend", [0])], "onexit")]),
+                                            ("leaf", 3, "doize", "ok", [y] * 6)], [("leaf", 8, "bound", "ok", [y] * 2)])])]
+        return super().corpus() + extra
     rule = ("as C01 with the op-heavy profile: extend/remove issued from inside running doers on their own scheduler (Doist, DoDoer, DoDoer(always)), targets = self, earlier/later siblings, "
             "completed, absent, pool doers, duplicates, out-of-range pool index, several ops per step, failing enter inside extend.  non-trivial = at least one op returned and >=12 events; distinct by request line")
 
@@ -164,6 +278,8 @@ class C06(S.SchedCheck):
         return len(obs.d["trace"]) >= 12 and any(e[1] == "doers" for e in obs.d["trace"])
 
     def oracle(self, case, obs):
+        if S.model3(case):
+            return clauses_nested(case, obs.d)
         return clauses(case, obs.d)
 
 
